@@ -14,6 +14,7 @@ import (
 	"github.com/go-kid/ioc/container/processors"
 	"github.com/go-kid/ioc/container/support"
 	"github.com/go-kid/ioc/definition"
+	"github.com/go-kid/ioc/syslog"
 	"github.com/go-kid/ioc/util/list"
 	"github.com/go-kid/ioc/util/sync2"
 	"github.com/go-kid/ioc/util/vsync"
@@ -32,9 +33,9 @@ func init() {
 			"data races are judged by tsan's happens-before model on the explored schedule; weak-memory effects below it are not covered",
 		},
 		Parts: []Part{
-			{Name: "scan-races", Race: true, Run: c20Scan, QuickS: 120, ThoroughS: 1500},
-			{Name: "close-races", Race: true, Run: c20Close, QuickS: 60, ThoroughS: 600},
-			{Name: "whole-start", Race: true, Run: c20Whole, Workers: 4, QuickS: 60, ThoroughS: 300},
+			{Name: "scan-races", Race: true, Verbose: true, Run: c20Scan, QuickS: 120, ThoroughS: 1500},
+			{Name: "close-races", Race: true, Verbose: true, Run: c20Close, QuickS: 60, ThoroughS: 600},
+			{Name: "whole-start", Race: true, Verbose: true, Run: c20Whole, Workers: 4, QuickS: 60, ThoroughS: 300},
 			{Name: "utilities", Run: c20Util, QuickS: 120, ThoroughS: 1800},
 		},
 	})
@@ -113,6 +114,7 @@ func c20Scan(c *core.Ctx) {
 		var gotErr bool
 		var metas int
 		body := func() {
+			syslog.ResetForVerif(syslog.LvTrace) // every execution starts with cold logger state
 			reg := support.NewRegistry()
 			for i := 0; i < cs.N; i++ {
 				reg.RegisterSingleton(&c20X{fmt.Sprintf("c%d", i)})
@@ -205,6 +207,7 @@ func c20Close(c *core.Ctx) {
 		}
 		a := &app.App{CloserComponents: comps}
 		body := func() {
+			syslog.ResetForVerif(syslog.LvTrace) // every execution starts with cold logger state
 			c14Reset(closers)
 			a.Close()
 		}
@@ -279,6 +282,7 @@ func c20Whole(c *core.Ctx) {
 		}
 		var err error
 		body := func() {
+			syslog.ResetForVerif(syslog.LvTrace)
 			comps := []any{&c20Node{Nm: "wa"}, &c20Node{Nm: "wb"}, &c20Node{Nm: "wc"}}
 			if cs.Prog >= 1 {
 				fs := &c20FailScan{}
